@@ -4,6 +4,7 @@ import Driver.C07
 import Driver.C16
 import Driver.C17
 import Driver.C18
+import Driver.C19
 import Driver.Mp4
 open Driver
 
@@ -18,6 +19,7 @@ def dispatch (line : String) : String :=
     | "C16" => Driver.C16.handle kv
     | "C17" => Driver.C17.handle kv
     | "C18" => Driver.C18.handle kv
+    | "C19" => Driver.C19.handle kv
     | "C01" | "C02" | "C03" | "C04" | "C05" => Driver.Mp4.handle prop kv
     | "#" => "NOTE " ++ " ".intercalate rest
     | _ => s!"ERR ? unknown-prop {prop}"
